@@ -494,6 +494,8 @@ def reconfigure(
     If *key* is provided, triples are sorted according to the key.
     """
     p = copy.deepcopy(g)
+    if top is None:
+        top = p.top  # sorting below must not change an implicit top
     for epilist in p.epidata.values():
         epilist[:] = [
             epi for epi in epilist if not isinstance(epi, LayoutMarker)
